@@ -89,7 +89,8 @@ def values(base):
         return [(0, 0), (2, 0), (0, 1), (3, 0)]
     # the ill-typed value is one that python considers EQUAL to a value of the base type where such a type exists:
     # INTEGER(0) == REAL(0.0) == False; a membership test taken before the type check would let it through
-    other = {0: 2, 1: 0, 2: 0, 3: 0, 4: 3, 6: 7, 7: 6}[base]
+    # (STRING / BINARY: each other's nearest relative - both python strings)
+    other = {0: 2, 1: 8, 2: 0, 3: 0, 4: 3, 6: 7, 7: 6, 8: 1}[base]
     return [(base, 0), (base, 1), (other, 0)]
 
 
@@ -108,7 +109,7 @@ def cross_type_alphabet(d):
     offered to the mutator of the aggregate"""
     k, lo, hi, base = d[0], d[1], d[2], d[3]
     offers = [(t, v) for t in good_tags(base) for v in (0, 1)]
-    offers += [(t, v) for t in NUMERIC if t not in good_tags(base) for v in (0, 1)] + [(1, 0), (4, 0), (4, 1)]
+    offers += [(t, v) for t in NUMERIC if t not in good_tags(base) for v in (0, 1)] + [(1, 0), (4, 0), (4, 1), (8, 0)]
     offers = list(dict.fromkeys(offers))
     if k == "ARRAY":
         return [("set", i) + v for i in range(lo, hi + 1) for v in offers]
@@ -165,7 +166,7 @@ def random_decl(rng):
     k = rng.choice(["ARRAY", "LIST", "LIST", "BAG", "SET"])
     r = rng.random()
     base = (rng.choice(DEEP) if r < 0.12 else rng.choice(NESTED + ["A5", "S5", "L6"]) if r < 0.35
-            else rng.choice([0, 1, 2, 3, 4, 5, 6, 7, "s5", "s3", "s65", "s192", "s13"]))
+            else rng.choice([0, 1, 2, 3, 4, 5, 6, 7, 8, "s5", "s3", "s65", "s192", "s13"]))
     if k == "ARRAY":
         lo = rng.choice([-3, -1, 0, 1, 1, 2, 5])
         hi = lo + rng.choice([0, 1, 2, 3, 5, 8])
@@ -190,7 +191,7 @@ class Cursor:
             if is_nested(base):
                 t = rng.choice(values(base)[2:])[0]
             else:
-                t = rng.choice([x for x in (0, 1, 2, 3, 4, 6, 7) if x not in good_tags(base)])   # often python-equal to a member
+                t = rng.choice([x for x in (0, 1, 2, 3, 4, 6, 7, 8) if x not in good_tags(base)])   # often python-equal to a member
             return (t, payload(t))
         if is_nested(base):
             return (base, payload(base))
@@ -583,7 +584,7 @@ def batches(ctx):
                                                       for seq in itertools.product(cross_type_alphabet(d), repeat=depth))
     # LOGICAL and BOOLEAN base types (Unknown, False/True) through the ordinary alphabets
     for depth in (1, 2, 3):
-        yield f"exhaustive-logical-boolean-number-enum-select-{depth}", (h for b in ((3, 4, 5, 6, "s3", "s65", "s13") if (depth < 3 or not quick) else (4, 5, "s13"))
+        yield f"exhaustive-logical-boolean-number-enum-select-{depth}", (h for b in ((3, 4, 5, 6, 1, 8, "s3", "s65", "s13") if (depth < 3 or not quick) else (4, 5, 8, "s13"))
                                                      for d in array_decls([(1, 2)], b) + list_decls([(0, None), (0, 2)], b) + coll_decls([(0, None), (0, 2)], b)
                                                      for h in exhaustive(d, depth))
     # the built-in functions of Builtin.py on every state reached by short histories
@@ -650,7 +651,7 @@ def probe_specialization(ctx, sides):
     compatibility (specializations included).  Where the runtime refuses what EXPRESS allows because of a specialization
     (INTEGER for REAL, BOOLEAN for LOGICAL) the difference is the class `simple-specialization-refused` (one finding);
     any other difference is reported under its own key."""
-    tags = ["0", "1", "2", "3", "4", "6", "7"]
+    tags = ["0", "1", "2", "3", "4", "6", "7", "8"]          # every value type against every base type: the full matrix
     bases = tags + ["5", "s5", "s3", "s24", "s65"]
     lines = ["reset"] + [f"accepts {t} {b}" for b in bases for t in tags]
     text = "\n".join(lines) + "\n"
